@@ -18,18 +18,18 @@ CONSTANTS
  DevJoinOkEarly = FALSE
  DevAssignAllMembers = FALSE
  DevRestoreDropsAsg = FALSE
- DevRestoreGenZero = TRUE
+ DevRestoreGenZero = FALSE
  DevExpireIgnoresHb = FALSE
  DevNoLaggerDrop = FALSE
  DevNoExpire = FALSE
  DevLaggerSkippedOnExpiry = FALSE
  DevSyncRefusesIdle = FALSE
- DevHbWriteUnlocked = FALSE
+ DevHbWriteUnlocked = TRUE
  DevCleanupWriteUnlocked = FALSE
  DevSyncLookupUnlocked = FALSE
 INIT Init
 NEXT Next
-PROPERTIES C15_RestoreEqual C15_NotFenced C15_KeepWorking
+PROPERTIES C13_StaleRejected C13_StaleNoCommit C13_GenMonotone C13_ReplyGen
 CONSTRAINT GenBound
 VIEW View
 CHECK_DEADLOCK FALSE
